@@ -436,6 +436,10 @@ class Extractor:
             # verifier option (specification only): facts established before a loop stay known inside it
             segs.insert(0, Seg('#[verifier::loop_isolation(false)]\n'))
             rules.append(('E1', 'verifier attribute loop_isolation(false)', ''))
+        if opts.get('nodecr'):
+            # verifier option (specification only): termination of this function is not claimed (event loop over a socket)
+            segs.insert(0, Seg('#[verifier::exec_allows_no_decreases_clause]\n'))
+            rules.append(('E1', 'verifier attribute exec_allows_no_decreases_clause (termination not claimed)', ''))
         if opts.get('rlimit'):
             # verifier option (specification only): solver resource budget for this function
             segs.insert(0, Seg(f"#[verifier::rlimit({int(opts['rlimit'])})]\n"))
